@@ -17,16 +17,17 @@ import (
 
 type variant struct {
 	Name   string `json:"name"`
-	Prop   string `json:"prop"`   // property whose check is run
-	Rule   string `json:"rule"`   // expected rule id (prefix), "none" = must not be flagged
-	File   string `json:"file"`   // path relative to the repository root
-	Old    string `json:"old"`    // exact substring, must occur exactly once
-	New    string `json:"new"`    // replacement
+	Prop   string `json:"prop"` // property whose check is run
+	Rule   string `json:"rule"` // expected rule id (prefix), "none" = must not be flagged
+	File   string `json:"file"` // path relative to the repository root
+	Old    string `json:"old"`  // exact substring, must occur exactly once
+	New    string `json:"new"`  // replacement
 	File2  string `json:"file2,omitempty"`
 	Old2   string `json:"old2,omitempty"`
 	New2   string `json:"new2,omitempty"`
-	Suite  string `json:"suite"`  // observed outcome of the unedited test suite on the variant: pass|fail|unknown
-	Origin string `json:"origin"` // calibration | revert-of-fix | seeded | instance-class | preserving
+	Patch  string `json:"patch,omitempty"` // unified diff (path relative to the verification directory), alternative to file/old/new
+	Suite  string `json:"suite"`           // observed outcome of the unedited test suite on the variant: pass|fail|unknown
+	Origin string `json:"origin"`          // calibration | revert-of-fix | seeded | instance-class | preserving
 }
 
 type variantResult struct {
@@ -72,6 +73,52 @@ func applyOne(repo, file, old, new string, dir string, idx int) (string, string,
 	return path, out, nil
 }
 
+// applyPatch copies the files a unified diff touches from the repository into a scratch directory (outside /repo and
+// /verif), applies the diff there with `git apply`, and returns the overlay arguments original=patched.
+func applyPatch(repo, patch, scratch string) ([]string, error) {
+	b, err := os.ReadFile(patch)
+	if err != nil {
+		return nil, err
+	}
+	var files []string
+	for _, line := range strings.Split(string(b), "\n") {
+		if strings.HasPrefix(line, "+++ b/") {
+			files = append(files, strings.TrimPrefix(line, "+++ b/"))
+		}
+	}
+	if len(files) == 0 {
+		return nil, fmt.Errorf("no file in patch")
+	}
+	for _, f := range files {
+		src := filepath.Join(repo, f)
+		dst := filepath.Join(scratch, f)
+		if err := os.MkdirAll(filepath.Dir(dst), 0o755); err != nil {
+			return nil, err
+		}
+		content, err := os.ReadFile(src)
+		if err != nil {
+			if os.IsNotExist(err) {
+				continue // a file the patch creates
+			}
+			return nil, err
+		}
+		if err := os.WriteFile(dst, content, 0o644); err != nil {
+			return nil, err
+		}
+	}
+	cmd := exec.Command("git", "apply", "--unsafe-paths", "--whitespace=nowarn", patch)
+	cmd.Dir = scratch
+	cmd.Env = append(os.Environ(), "GIT_DIR=/nonexistent", "GIT_CEILING_DIRECTORIES="+filepath.Dir(scratch))
+	if out, err := cmd.CombinedOutput(); err != nil {
+		return nil, fmt.Errorf("%v: %s", err, firstLine(strings.TrimSpace(string(out))))
+	}
+	var ovs []string
+	for _, f := range files {
+		ovs = append(ovs, filepath.Join(repo, f)+"="+filepath.Join(scratch, f))
+	}
+	return ovs, nil
+}
+
 func runVariants(prop, repo, verif string, vs []variant) []variantResult {
 	self, _ := os.Executable()
 	dir, err := os.MkdirTemp("", "ysgocheck-selftest-")
@@ -91,12 +138,23 @@ func runVariants(prop, repo, verif string, vs []variant) []variantResult {
 			res := variantResult{Name: v.Name, Rule: v.Rule}
 			defer func() { results[i] = res }()
 			args := []string{"-prop", prop, "-repo", repo, "-verif", verif, "-json", "-noevidence"}
-			orig, repl, err := applyOne(repo, v.File, v.Old, v.New, dir, i*2)
-			if err != nil {
-				res.Status, res.Detail = "skipped", "patch does not apply to the current tree: "+err.Error()
-				return
+			if v.Patch != "" {
+				ovs, err := applyPatch(repo, filepath.Join(verif, v.Patch), filepath.Join(dir, fmt.Sprintf("p%d", i)))
+				if err != nil {
+					res.Status, res.Detail = "skipped", "patch does not apply to the current tree: "+err.Error()
+					return
+				}
+				for _, ov := range ovs {
+					args = append(args, "-overlay", ov)
+				}
+			} else {
+				orig, repl, err := applyOne(repo, v.File, v.Old, v.New, dir, i*2)
+				if err != nil {
+					res.Status, res.Detail = "skipped", "patch does not apply to the current tree: "+err.Error()
+					return
+				}
+				args = append(args, "-overlay", orig+"="+repl)
 			}
-			args = append(args, "-overlay", orig+"="+repl)
 			if v.File2 != "" {
 				orig2, repl2, err := applyOne(repo, v.File2, v.Old2, v.New2, dir, i*2+1)
 				if err != nil {
